@@ -134,7 +134,7 @@ fn perms(n: usize) -> Vec<Vec<usize>> {
 }
 
 /// names chosen so that siblings and parent/child names share textual prefixes
-const NAMES: [&str; 6] = ["a", "ab", "b", "a1", "abc", "c"];
+const NAMES: [&str; 6] = ["a", "ab", "bü", "a1", "abc", "c"];
 
 #[derive(Clone, Debug)]
 struct Case {
@@ -394,7 +394,7 @@ impl Property for C12 {
     }
     fn rule(&self, tier: Tier) -> String {
         format!(
-            "every rooted forest with 1..={} nodes (names a, ab, b, a1, abc, c: prefix-sharing siblings and parent/child names) x every linear extension of parent-before-child as insertion order x every assignment of 0..3 start stages (a module declaring none is never started; for up to {} nodes; larger trees: all assignments with at most 2 nodes deviating from 1 stage); \
+            "every rooted forest with 1..={} nodes (names a, ab, bü, a1, abc, c: prefix-sharing siblings and parent/child names, one of them with a multi-byte character) x every linear extension of parent-before-child as insertion order x every assignment of 0..3 start stages (a module declaring none is never started; for up to {} nodes; larger trees: all assignments with at most 2 nodes deviating from 1 stage); \
              oracle: at_sim_start log == stage-major, depth-first pre-order with siblings in creation order, exactly once per declared stage, all before the first event; at_sim_end exactly once per module after the last event; parent()/child()/path()/name() agree with the declared tree, and the module a lookup returns is the declared one (same id as that module sees for itself); \
              duplicate path and missing parent rejected at depths 1..3; start stages of a module built from an NDL description next to a node()-built module (7 combinations of stage counts); per (forest, insertion order) one more run in which, after every insertion, every path inserted so far and an orphan are offered again: each offer must be rejected and the run must be unchanged; one run in which every top-level subtree is created by a ModuleBlock through the scoped builder (root / node with relative paths); one run in which one module shuts itself down during the run (it still gets its at_sim_end); and one run in which one module's at_sim_end returns an error: run() reports it and every module is still torn down exactly once; non-trivial = forest with at least 3 nodes",
             tier.pick(5, 6),
